@@ -66,14 +66,14 @@ func init() {
 		Trusted: trust("A-SORT", "A-PS")})
 	add(&propSpec{ID: "C18", Level: "proof", Funcs: append([]string{"bexpr.Evaluator.Evaluate", "bexpr.getValue", "bexpr.CreateEvaluator", "bexpr.CreateFilter", "grammar.MaxExpressions"}, optFuncs...),
 		Trusted: trust("A-PS", "A-HOOK")})
-	add(&propSpec{ID: "C10", Level: "proof", Funcs: []string{"bexpr.CreateEvaluator", "bexpr.CreateFilter", "bexpr.compileRegexps", "grammar.MaxExpressions"},
+	add(&propSpec{ID: "C10", Level: "proof", Funcs: []string{"bexpr.CreateEvaluator", "bexpr.CreateFilter", "bexpr.compileRegexps", "grammar.MaxExpressions", "grammar.parser.parse", "grammar.parser.parse$1", "grammar.errList.add", "grammar.errList.err", "grammar.errList.dedupe", "grammar.parser.addErr", "grammar.parser.addErrAt"},
 		Trusted: trust("A-ENGINE", "A-STACK", "A-REGEXP")})
 	add(&propSpec{ID: "C11", Level: "proof", Funcs: []string{"grammar.parser.parseExpr", "grammar.parser.parseRule", "grammar.parser.parseActionExpr", "grammar.parser.parseAndCodeExpr",
 		"grammar.parser.parseAndExpr", "grammar.parser.parseAnyMatcher", "grammar.parser.parseCharClassMatcher", "grammar.parser.parseChoiceExpr", "grammar.parser.parseLabeledExpr",
 		"grammar.parser.parseLitMatcher", "grammar.parser.parseNotCodeExpr", "grammar.parser.parseNotExpr", "grammar.parser.parseOneOrMoreExpr", "grammar.parser.parseRecoveryExpr",
 		"grammar.parser.parseRuleRefExpr", "grammar.parser.parseSeqExpr", "grammar.parser.parseThrowExpr", "grammar.parser.parseZeroOrMoreExpr", "grammar.parser.parseZeroOrOneExpr",
 		"grammar.newParser", "grammar.parser.setOptions", "grammar.MaxExpressions", "grammar.MaxExpressions$1", "grammar.Recover$1", "grammar.Entrypoint$1", "grammar.AllowInvalidUTF8$1", "grammar.GlobalStore$1",
-		"bexpr.CreateEvaluator", "bexpr.WithMaxExpressions", "bexpr.WithMaxExpressions$1", "bexpr.getOpts"},
+		"bexpr.CreateEvaluator", "bexpr.WithMaxExpressions", "bexpr.WithMaxExpressions$1", "bexpr.getOpts", "grammar.parser.parse", "grammar.parser.parse$1", "grammar.errList.add", "grammar.errList.err", "grammar.errList.dedupe", "grammar.parser.addErr", "grammar.parser.addErrAt"},
 		Extras: []string{"frame:budget-fields"}, Trusted: trust("A-ARITH-1", "A-ENGINE", "A-STACK")})
 	add(&propSpec{ID: "C19", Level: "proof", Funcs: []string{"grammar.UnaryExpression.ExpressionDump", "grammar.BinaryExpression.ExpressionDump", "grammar.MatchExpression.ExpressionDump",
 		"grammar.CollectionExpression.ExpressionDump", "grammar.Selector.String", "grammar.UnaryOperator.String", "grammar.BinaryOperator.String", "grammar.MatchOperator.String",
